@@ -52,7 +52,7 @@ theorem push3_get (ns : Array Node) (a b c : Node) (m : Nat) :
 /-! ## the chain -/
 
 section
-variable {env : Env} {rk : Nat → Nat} {s : State} (fam a0 : Nat)
+variable {env : Env} {rk : Nat → Nat} {s : State} (fam : FamCut) (a0 : Nat)
 
 /-- the re-chosen rank: the ranks of `N+1` and `N+2` are swapped -/
 def swapRk (rk : Nat → Nat) (N : Nat) : Nat → Nat :=
